@@ -59,6 +59,12 @@ def gen_pool(seed: int, idx: int) -> dict:
         kinds.append(kind)
         clocky.append("${today}" in d["text"] or "${now}" in d["text"] or "no-now" in d.get("tags", []))
     n_ops = rng.choice([20, 40, 60, 100])
+    # container attributes inherited by children (own stream): the inheritance machinery is process-global state
+    irng = rng_for(PROP, seed, f"inherit-{idx}")
+    for j, kd in enumerate(kinds):
+        if kd in ("gen", "clock") and irng.random() < 0.4:
+            texts[j] = gen.add_inheritance(irng, texts[j])
+            kinds[j] = kd + "+inherit"
     return {"texts": texts, "kinds": kinds, "clocky": clocky, "n_ops": n_ops, "fault_free": rng.random() < 0.3, "rng_seed": f"{PROP}:{seed}:{idx}:ops"}
 
 
@@ -84,7 +90,7 @@ def history_job(args: dict) -> dict:
     if args.get("n_ops"):
         spec["n_ops"] = args["n_ops"]
     try:
-        r = libworld.fork_call(libworld.c12_history, (spec,), 1200)
+        r = libworld.fork_call(libworld.c12_history, (spec,), 420)
     finally:
         snapshot.drop_scratch(wd)
     if r.get("wall_timeout"):
@@ -223,6 +229,11 @@ def main() -> int:
         i = s["idx"]
         cfg = i % len(CONFIGS)
         payload = {"property": PROP, "sig": sig, "oracle": v["oracle"], "detail": v["detail"], "seed": seed, "history_index": i, "cfg": cfg, "worker_config": CONFIGS[cfg], "tree_digest": snap["digest"]}
+        if sig == "progress|history-wall-timeout":
+            # nothing to shrink and every probe would cost a full watchdog period: the replay regenerates the history
+            payload.update(tape=None, n_ops=None, note="the history did not finish within the wall watchdog (420 s; a quick-tier history takes 5-20 s); replay regenerates it from (seed, history_index)", texts=gen_pool(seed, i)["texts"])
+            reported.append((v, harness.write_replay(PROP, seed, payload)))
+            continue
         if s.get("baseline_only"):
             payload.update(tape=[], n_ops=0, note="violation inside the fresh-interpreter baseline itself (no history needed)", texts=gen_pool(seed, i)["texts"])
             reported.append((v, harness.write_replay(PROP, seed, payload)))
